@@ -9,13 +9,15 @@ cd $WT || exit 2
 git diff -- src > $DEST/patch.diff
 cp tests/seed_demo.rs $DEST/seed_demo.rs 2>/dev/null || cp $OUT/seed_demo.rs $DEST/seed_demo.rs
 cp $OUT/notes.md $DEST/agent_notes.md 2>/dev/null
-FEAT=""; grep -q verif_hooks tests/seed_demo.rs 2>/dev/null && FEAT="--features astrolabe_verif"
+FL=""; grep -q verif_hooks tests/seed_demo.rs 2>/dev/null && FL="astrolabe_verif"
+grep -q serde tests/seed_demo.rs 2>/dev/null && FL="$FL serde"
+FEAT=""; [ -n "$FL" ] && FEAT="--features \"$FL\""
 echo "== with change: full suite"
-cargo test --offline --no-fail-fast $FEAT 2>&1 | grep -E "^test result|Running|FAILED|failed" > $DEST/with_change.txt
+eval cargo test --offline --no-fail-fast $FEAT 2>&1 | grep -E "^test result|Running|FAILED|failed" > $DEST/with_change.txt
 SUITE_FAIL=$(grep -B1 "FAILED\|[1-9][0-9]* failed" $DEST/with_change.txt | grep "Running" | grep -v seed_demo | wc -l)
-DEMO_FAIL_WITH=$(cargo test --offline $FEAT --test seed_demo 2>&1 | grep -c "test result: FAILED")
+DEMO_FAIL_WITH=$(eval cargo test --offline $FEAT --test seed_demo 2>&1 | grep -c "test result: FAILED")
 git stash push -q -- src
-DEMO_PASS_WITHOUT=$(cargo test --offline $FEAT --test seed_demo 2>&1 | grep -c "test result: ok")
+DEMO_PASS_WITHOUT=$(eval cargo test --offline $FEAT --test seed_demo 2>&1 | grep -c "test result: ok")
 git stash pop -q
 echo "suite targets failing (other than demo): $SUITE_FAIL ; demo fails with change: $DEMO_FAIL_WITH ; demo passes without: $DEMO_PASS_WITHOUT"
 cd /repo && git apply $DEST/patch.diff || { echo "patch does not apply to /repo"; exit 3; }
